@@ -1,6 +1,7 @@
 //! Family binary: transports (C22 global-only transport, C23 DNS transport).
 mod c22;
+mod c23;
 
 fn main() {
-    mc::main_dispatch(&[("C22", c22::run, c22::META)]);
+    mc::main_dispatch(&[("C22", c22::run, c22::META), ("C23", c23::run, c23::META)]);
 }
